@@ -78,6 +78,19 @@ func sigmaEvalData() map[string]interface{} {
 	}
 }
 
+// reenterData: host functions that evaluate a sub-formula on the very runner they are called from (a
+// closure over the runner), directly and through each other: evaluation still terminates.
+func reenterData(r *formula.Runner) map[string]interface{} {
+	d := sigmaEvalData()
+	sub, _ := cachedParse("x + 1")
+	sub2, _ := cachedParse("again() * 2 + len(s)")
+	subErr, _ := cachedParse("n!.k")
+	d["again"] = func() (interface{}, error) { return r.Resolve(bg, sub.Expression) }
+	d["again2"] = func(ctx context.Context) (interface{}, error) { return r.Resolve(ctx, sub2.Expression) }
+	d["againErr"] = func() (interface{}, error) { return r.Resolve(bg, subErr.Expression) }
+	return d
+}
+
 func dataConfig(name string) map[string]interface{} {
 	switch name {
 	case "zoo":
@@ -104,6 +117,9 @@ func judgeC03(c EvalCase) *eng.Fail {
 	if d := dataConfig(c.Data); d != nil {
 		r.SetThis(d)
 	}
+	if c.Data == "reenter" {
+		r.SetThis(reenterData(r))
+	}
 	resetSteps()
 	t0 := time.Now()
 	o := safeResolve(r, bg, p.src.Expression)
@@ -129,6 +145,9 @@ func judgeC03(c EvalCase) *eng.Fail {
 		r2 := formula.NewRunner()
 		if d := dataConfig(c.Data); d != nil {
 			r2.SetThis(d)
+		}
+		if c.Data == "reenter" {
+			r2.SetThis(reenterData(r2))
 		}
 		resetSteps()
 		o2 := safeResolve(r2, c03DeadlineCtx, p.src.Expression)
@@ -229,7 +248,7 @@ func runC03(w *eng.W) {
 		}
 	}
 	// (g) the misuse the statement lists is reported through the returned error (never a value)
-	for _, src := range []string{"s(1)", "x(1)", "n()", "arr(0)", "m.k(1)", "st()", "len()", "len(1, 2)", "left('abc')", "left('abc', 'x')", "mid('abc', 'a', 2)", "date('a', 1, 1)", "left('abc', -1)", "right('abc', -1)",
+	for _, src := range []string{"s(1)", "x(1)", "n()", "arr(0)", "m.k(1)", "m.q(1)", "m.q.r()", "n.x(2)", "this.nope(1)", "nope(1)", "m.q(1) + 1", "1 + m.q.r(4)", "[m.nope()]", "m.s(1)", "m.k.f()", "st()", "len()", "len(1, 2)", "left('abc')", "left('abc', 'x')", "mid('abc', 'a', 2)", "date('a', 1, 1)", "left('abc', -1)", "right('abc', -1)",
 		"regexp('ab', '(')", "regexp('ab', 'a)(b')", "regexp('ab', ')(')", "regexp('ab', 'x)|(y')", "regexp('ab', '[a-')", "regexp('ab', '*a')", "regexp('ab', 'a)')", "regexp('ab', '(?z)a')",
 		"arr == arr", "[1] == [1]", "m == m", "m != m", "arr < arr", "[1] >= [1]", "m <= m", "m > m", "[1, 2] < [3]", "arr >= m", "m < [1]", "arr !== arr", "m === m", "st.Missing", "st.Missing.x", "f((1)...)", "f(m...)", "len([1]...)", "n!.k", "m.q!.k"} {
 		if !w.Take() {
@@ -281,6 +300,13 @@ func runC03(w *eng.W) {
 					do("builtin-spread", name+"("+args+"...)", "zoo")
 				}
 			})
+		}
+	}
+	// (i) host functions that re-enter the runner
+	if w.Take() {
+		for _, src := range []string{"again()", "again() + 1", "[again(), again()]", "again2()", "again2() + again()", "f(again())", "$l = again(), $l + again2()", "again() ? again2() : 2", "againErr()", "[again(), againErr()]",
+			"againErr() ?? again()", "x + again() * again2()", "m.f(again())", "again(1)", "again2(1)"} {
+			do("re-entrant", src, "reenter")
 		}
 	}
 	// (h) exponent walks: quotients and products of literals at the edge of the exponent range, repeated until
